@@ -5,7 +5,7 @@ MC_RewireStrict == EnvBool("V_REWIRE_STRICT", TRUE)
 MC_NearFirst == EnvBool("V_NEAR_FIRST", FALSE)
 
 Emit ==
-  (MC_Emit /\ pc' = "idle" /\ res'.kind # "none" /\ (pc = "loop" \/ ncalls' # ncalls)) =>
+  (MC_Emit /\ ((EmitAll /\ Len(hist') > Len(hist) /\ hist'[Len(hist')].c = "it") \/ (pc' = "idle" /\ res'.kind # "none" /\ (pc = "loop" \/ ncalls' # ncalls)))) =>
      PrintT(<<"HIST", ToJson([planner |-> "rrtstar", topo |-> MC_T, maxd |-> MC_MaxDist, rad2 |-> MC_Rad2, lvs |-> MC_Lvs,
                              bias |-> MC_Bias, seeded |-> MC_Seeded, worlds |-> worlds, probs |-> probs,
                              calls |-> hist'])>>)
